@@ -4,21 +4,21 @@ package dtls
 // shared Listener for the SAME secret at the same instant (released from a spin barrier), with a few
 // callers for other secrets around them. Whatever the schedule:
 //   * exactly one caller is admitted, the others fail at once ("fails cleanly");
-//   * the admitted caller keeps its registration (certificate and channel) - the failing duplicates
-//     must not take it away;
-//   * a dial for that secret is then handed to the admitted caller (whoever it is);
+//   * a dial for that secret is then handed to the admitted caller (whoever it is) - the failing
+//     duplicates must not take away what it needs for that;
 //   * once every call has returned nothing of the round is registered any more.
 // The round is cheap (no handshake until the dial), so a case is a batch of many rounds with a fresh
-// secret each. The state of the two listener maps is inspected in every round once all duplicates have
-// returned; when the admitted caller's registration is gone the dial is made anyway, to show what the
-// caller experiences. Otherwise the dial is made in every round of the batches that use Accept (no
+// secret each. The verdict comes from the dial alone. The listener's maps are only consulted (after the
+// registration has had time to settle) to decide in which rounds the dial is worth its cost: always when
+// the admitted caller's certificate entry is missing; otherwise the dial is made in every round of the batches that use Accept (no
 // context: a dial is the only thing that releases the caller) and in every n-th round of the batches that
 // use AcceptWithContext (the others release the caller by cancelling).
-//   routing:duplicate-accept-disturbed-first   the admitted caller lost its registration / is not served
+//   routing:duplicate-accept-disturbed-first   the dial for the secret is refused and the admitted caller is
+//                                              not served (its registration was taken away)
 //   routing:duplicate-accept-not-rejected      more than one caller stays admitted for one secret
 //   routing:accept-without-dial                a caller obtained a connection nobody dialled
 //   routing:registration-leaked                something is still registered after all calls returned
-// A dial that fails although the registration was intact (time-out under load) is inconclusive.
+// A dial that times out, or fails while both map entries were present, is inconclusive.
 
 import (
 	"context"
@@ -205,28 +205,27 @@ func c16EqRound(cl *c16Lis, c c16EqCase, round int, out *c16EqOut) (key, msg str
 	}
 	out.classes["duplicates-refused"] = true
 
-	// the admitted caller is still inside Accept: it must still be registered, whoever it is
-	certOK, chOK := cl.registered(secret)
+	// The admitted caller is still inside Accept. Whether it keeps what it needs is judged by what the
+	// property states - the dial for its secret must reach it - and never by the listener's maps: those
+	// are only looked at to decide when the confirming dial is worth making. A look right after the
+	// refusals is not synchronised with the admitted caller, which may legitimately still be between
+	// registering its certificate and registering its channel, so wait for the registration to settle:
+	// complete (both entries), or the channel without the certificate (the shape the admitted caller
+	// never passes through on its own), or a generous time-out.
+	var certOK, chOK bool
+	for j := 0; ; j++ {
+		certOK, chOK = cl.registered(secret)
+		if (certOK && chOK) || (chOK && !certOK) || j >= 50000 {
+			break
+		}
+		time.Sleep(100 * time.Microsecond)
+	}
 	intact := certOK && chOK
-	for i, s := range others {
+	for _, s := range others {
 		if a, b := cl.registered(s); !a || !b {
-			// it may simply not have got as far as registering yet: give it a moment
-			ok := false
-			for j := 0; j < 20000 && !ok; j++ {
-				time.Sleep(100 * time.Microsecond)
-				a, b = cl.registered(s)
-				ok = a && b
-			}
-			if !ok {
-				cancel()
-				if c.ViaAccept {
-					rescue()
-				} else {
-					<-results
-				}
-				finishOthers()
-				return "routing:duplicate-accept-disturbed-first", fmt.Sprintf("bystander caller #%d (another secret) is not registered (certificate=%v channel=%v) while it waits", i, a, b)
-			}
+			// not (yet) registered: bystanders only provide contention and take part in the final
+			// nothing-left-registered check; no verdict from a map
+			out.classes["bystander-not-yet-registered"] = true
 		}
 	}
 	doDial := !intact || c.ViaAccept || (c.DialEvery > 0 && round%c.DialEvery == 0)
@@ -265,21 +264,23 @@ func c16EqRound(cl *c16Lis, c c16EqCase, round int, out *c16EqOut) (key, msg str
 	}
 	finishOthers()
 	served := doDial && derr == nil && got && admitted.err == nil && admitted.conn != nil
-	if !intact {
-		return "routing:duplicate-accept-disturbed-first", fmt.Sprintf("after %d of %d simultaneous Accepts for one secret had failed as duplicates, the caller still waiting had lost its registration (certificate registered=%v, channel registered=%v); the dial for that secret then ended with: %v; caller served=%v (%v)",
-			refused, c.K, certOK, chOK, derr, served, admitted.err)
-	}
-	if doDial {
-		if served {
-			out.classes["admitted-caller-served"] = true
-		} else {
-			out.classes["inconclusive-dial-failed"] = true
-		}
-	} else {
+	switch {
+	case !doDial:
 		out.classes["admitted-caller-released-by-cancel"] = true
+	case served:
+		out.classes["admitted-caller-served"] = true
+		if !intact {
+			out.classes["served-although-maps-looked-incomplete"] = true
+		}
+	case !intact && derr != nil && !c16IsTimeout(derr):
+		// the dial was refused (not timed out) while the one admitted caller was waiting for it
+		return "routing:duplicate-accept-disturbed-first", fmt.Sprintf("after %d of %d simultaneous Accepts for one secret had failed as duplicates, the dial for that secret was refused (%v) and the caller still waiting was not served (%v); at that time the listener held for the secret: certificate registered=%v, channel registered=%v - the failing duplicates took the admitted caller's registration away",
+			refused, c.K, derr, admitted.err, certOK, chOK)
+	default:
+		out.classes["inconclusive-dial-failed"] = true
 	}
 	if c.Others > 0 {
-		out.classes["bystanders-kept-registered"] = true
+		out.classes["bystanders-present"] = true
 	}
 	// every call has returned: nothing of this round may be registered
 	if l := cl.leakedSecrets(append([][]byte{secret}, others...)); len(l) > 0 {
@@ -358,9 +359,9 @@ func c16EqParams(i int) c16EqCase {
 
 func TestVerif_C16_equalaccepts(t *testing.T) {
 	t.Parallel() // overlaps the stall and stream sub-checks of the same unit
-	rec := vh.NewRec("C16", "equalaccepts", "batches of rounds on the shared Listener, batch parameters enumerated (no draws; the schedule is what varies); per round k simultaneous callers (k = 32 in two batches of three, else 2,3,4,8,16,24,31 in turn) for one fresh secret plus 0-3 callers for other secrets, all released from a spin barrier, via AcceptWithContext (150-200 rounds per batch, dial in every 25th/50th/100th round, otherwise release by cancel) or via Accept (every 6th batch, 8-12 rounds, dial in every round); listener maps inspected once all duplicates have returned and again after every call returned; oracle = exactly one admitted, it keeps its registration and is served by the dial, nothing registered afterwards; non-trivial = every evaluated batch (>= 2 racing callers); distinct by batch parameters; class 'rounds' counts the rounds")
+	rec := vh.NewRec("C16", "equalaccepts", "batches of rounds on the shared Listener, batch parameters enumerated (no draws; the schedule is what varies); per round k simultaneous callers (k = 32 in two batches of three, else 2,3,4,8,16,24,31 in turn) for one fresh secret plus 0-3 callers for other secrets, all released from a spin barrier, via AcceptWithContext (150-200 rounds per batch, dial in every 25th/50th/100th round, otherwise release by cancel) or via Accept (every 6th batch, 8-12 rounds, dial in every round); oracle = exactly one admitted, the dial for the secret reaches it (verdict from the dial only; the listener maps merely select the rounds in which the dial is made), nothing registered after every call returned; non-trivial = every evaluated batch (>= 2 racing callers); distinct by batch parameters; class 'rounds' counts the rounds")
 	defer rec.Flush()
-	rec.Require("duplicates-refused", "admitted-caller-served", "admitted-caller-released-by-cancel", "via-Accept", "via-AcceptWithContext", "bystanders-kept-registered")
+	rec.Require("duplicates-refused", "admitted-caller-served", "admitted-caller-released-by-cancel", "via-Accept", "via-AcceptWithContext", "bystanders-present")
 	if p := vh.ReplayFile(); p != "" {
 		var c c16EqCase
 		if _, _, err := vh.LoadReplay(p, &c); err != nil {
@@ -375,8 +376,15 @@ func TestVerif_C16_equalaccepts(t *testing.T) {
 	// partly serial, lanes keep the cores busy; results are reported from the test goroutine
 	shard, shards := vh.Shard()
 	batches := vh.Pick(14, 60)
+	// two small batches first so that every required class is there whatever the budget allows later
+	c16EqCheck(t, rec, c16EqCase{K: 32, Others: 2, Rounds: 3, ViaAccept: true})
+	c16EqCheck(t, rec, c16EqCase{K: 8, Others: 1, Rounds: 20, DialEvery: 5})
+	// wall-clock budget: on a starved machine a round takes many times longer; running out of budget
+	// means fewer rounds were explored (recorded), never a failure
+	budget := time.Duration(vh.Pick(25, 300)) * time.Second
+	began := time.Now()
 	lanes := 2
-	var next, stop int32
+	var next, stop, cut int32
 	done := make(chan c16EqDone, batches)
 	var wg sync.WaitGroup
 	for l := 0; l < lanes; l++ {
@@ -384,6 +392,10 @@ func TestVerif_C16_equalaccepts(t *testing.T) {
 		go func() {
 			defer wg.Done()
 			for atomic.LoadInt32(&stop) == 0 {
+				if time.Since(began) > budget {
+					atomic.StoreInt32(&cut, 1)
+					return
+				}
 				b := int(atomic.AddInt32(&next, 1)) - 1
 				if b >= batches {
 					return
@@ -398,6 +410,10 @@ func TestVerif_C16_equalaccepts(t *testing.T) {
 	}
 	wg.Wait()
 	close(done)
+	if atomic.LoadInt32(&cut) == 1 {
+		rec.Class("budget-ran-out-explored-less")
+		rec.Note("wall-clock budget of %v ran out after %d of %d batches on shard %d", budget, len(done), batches, shard)
+	}
 	var bad []c16EqDone
 	for d := range done {
 		if d.key != "" {
